@@ -121,7 +121,8 @@ class Source:
 
 
 class Frame:
-    def __init__(self, cls, fn, env, ret_reg, end_label, depth):
+    def __init__(self, cls, fn, env, ret_reg, end_label, depth, parent=None):
+        self.parent = parent
         self.cls = cls
         self.fn = fn
         self.env = env            # name -> Sem | Obj | Flag | ('reg', n)
@@ -301,7 +302,8 @@ class Compiler:
         src = self.sources[tgt.cls]
         fn, owner = src.method(tgt.cls, e.func.attr)
         params = [a.arg for a in fn.args.args]
-        if fn.args.vararg or fn.args.kwarg or fn.args.kwonlyargs or e.keywords:
+        if fn.args.kwarg or fn.args.kwonlyargs or e.keywords or \
+                (fn.args.vararg and len(e.args) > len(params) - 1):
             self.err(e, 'unsupported signature for %s' % fn.name, fr)
         defaults = dict(zip(params[len(params) - len(fn.args.defaults):], fn.args.defaults))
         env = {params[0]: tgt}
@@ -315,14 +317,34 @@ class Compiler:
                 env[p] = Flag('T' if a.value else 'F')
             elif isinstance(a, ast.Name) and isinstance(fr.env.get(a.id), Flag):
                 env[p] = fr.env[a.id]
+            elif isinstance(a, ast.Name) and isinstance(fr.env.get(a.id), tuple):
+                env[p] = fr.env[a.id]          # a register holding a message
+            elif self.passthrough(a, fr) is not None:
+                env[p] = self.passthrough(a, fr)
             else:
                 self.err(e, 'unsupported argument %s' % ast.unparse(a), fr)
         if len(e.args) > len(params) - 1:
             self.err(e, 'too many arguments', fr)
         end = self.label()
-        sub = Frame(owner, fn, env, dst, end, fr.depth + 1)
+        sub = Frame(owner, fn, env, dst, end, fr.depth + 1, fr)
         self.body(fn.body, sub)
         self.place(end)
+
+    def passthrough(self, a, fr):
+        """argument expressions that only wrap a value (overridden by the queue compiler)"""
+        return None
+
+    def do_raise(self, code, fr):
+        """raise: run the clean-ups of every enclosing frame, innermost first, then Raise"""
+        f = fr
+        while f is not None:
+            for k in range(len(f.cleanups) - 1, -1, -1):
+                saved = f.cleanups
+                f.cleanups = saved[:k]
+                saved[k]()
+                f.cleanups = saved
+            f = f.parent
+        self.emit('Raise %s' % code)
 
     # ------------------------------------------------------------------ statements
     def body(self, stmts, fr):
@@ -376,7 +398,7 @@ class Compiler:
                 elif val.startswith('(RConst'):
                     self.emit('Mov %d %s' % (fr.ret_reg, val[8:-1]))
                 elif val != '(RReg %d)' % fr.ret_reg:
-                    self.err(node, 'returning a local from an inlined call is not supported', fr)
+                    self.emit('Cpy %d %s' % (fr.ret_reg, val[6:-1]))
             self.emit('Jmp %s', fr.end_label)
 
     def stmt(self, s, fr):
@@ -484,6 +506,22 @@ class Compiler:
             tgt = self.obj_of(s.items[0].context_expr, fr)
             if isinstance(tgt, Obj) and tgt.cls == 'Condition':
                 tgt = tgt.attrs['_lock']     # Condition.__enter__/__exit__ (checked verbatim)
+            if isinstance(tgt, Obj) and tgt.cls in self.sources:
+                ce = s.items[0].context_expr
+                enter = ast.Call(func=ast.Attribute(value=ce, attr='__enter__', ctx=ast.Load()), args=[], keywords=[])
+                exit_ = ast.Call(func=ast.Attribute(value=ce, attr='__exit__', ctx=ast.Load()), args=[], keywords=[])
+                ast.copy_location(enter, s)
+                ast.copy_location(exit_, s)
+                self.call(enter, fr, None)
+
+                def cleanup_o(exit_=exit_):
+                    self.call(exit_, fr, None)
+                fr.cleanups.append(cleanup_o)
+                self.body(s.body, fr)
+                fr.cleanups.pop()
+                if not self.always_returns(s.body):
+                    cleanup_o()
+                return
             if not isinstance(tgt, Sem):
                 self.err(s, 'with over a non-lock object', fr)
             sid = tgt.sid
@@ -662,5 +700,373 @@ def gen_P_cond(repo):
     return '\n'.join(out) + '\n'
 
 
+
+# ============================================================================= C16: queues
+E_CODES = {'Full': '(-4)', 'Empty': '(-5)', 'ValueError': '(-3)'}
+PSEM = 1000          # Sem ids >= PSEM are per-process: (SP (id - PSEM))
+
+# statements of queues.py that are outside the model and skipped (text must match exactly)
+Q_SKIP = {
+    'assert not self._closed',                 # the queue is never closed in the model
+    'deadline = monotonic() + timeout',        # the deadline is an oracle (scheduler choice)
+    'timeout = deadline - monotonic()',
+}
+Q_START = 'if self._thread is None:\n    self._start_thread()'
+
+
+class QCompiler(Compiler):
+    """Compiler + the buffer / pipe / waiter-count operations of billiard.queues"""
+
+    def passthrough(self, a, fr):
+        # ForkingPickler.dumps(obj): pickling is not modelled, the message passes through
+        if isinstance(a, ast.Call) and ast.unparse(a.func) == 'ForkingPickler.dumps' and len(a.args) == 1 \
+                and isinstance(a.args[0], ast.Name) and isinstance(fr.env.get(a.args[0].id), tuple):
+            return fr.env[a.args[0].id]
+        return None
+
+    def msg_reg(self, e, fr):
+        if isinstance(e, ast.Name) and isinstance(fr.env.get(e.id), tuple) and fr.env[e.id][0] == 'reg':
+            return fr.env[e.id][1]
+        self.err(e, '%s is not a message register' % ast.unparse(e), fr)
+
+    def stmt(self, s, fr):
+        txt = ast.unparse(s)
+        if txt in Q_SKIP:
+            return
+        if txt == Q_START:
+            self.emit('Start')
+            return
+        if isinstance(s, ast.Expr) and isinstance(s.value, ast.Call):
+            c = s.value
+            f = ast.unparse(c.func)
+            if f == 'self._buffer.append' and len(c.args) == 1:
+                self.emit('BufAppend %d' % self.msg_reg(c.args[0], fr))
+                return
+            if f == 'self._writer.send_bytes' and len(c.args) == 1:
+                self.emit('Send %d' % self.msg_reg(c.args[0], fr))
+                return
+        if isinstance(s, ast.AugAssign) and ast.unparse(s.target) == 'self._waiters' \
+                and isinstance(s.value, ast.Constant) and s.value.value == 1:
+            if isinstance(s.op, ast.Add):
+                self.emit('WInc')
+                return
+            if isinstance(s.op, ast.Sub):
+                self.emit('WDec')
+                return
+        if isinstance(s, ast.Assign) and len(s.targets) == 1 and isinstance(s.targets[0], ast.Name) \
+                and ast.unparse(s.value) == 'self._recv_bytes()':
+            r = self.local_reg(s.targets[0].id, fr, create=True, node=s)
+            self.emit('Recv %d' % r)
+            return
+        if isinstance(s, ast.Raise):
+            name = None
+            if isinstance(s.exc, ast.Name):
+                name = s.exc.id
+            elif isinstance(s.exc, ast.Call) and isinstance(s.exc.func, ast.Name):
+                name = s.exc.func.id
+            if name not in E_CODES:
+                self.err(s, 'unsupported raise %s' % txt, fr)
+            self.do_raise(E_CODES[name], fr)
+            return
+        if isinstance(s, ast.If) and ast.unparse(s.test) == 'self._wlock is None':
+            # posix: the write lock exists; only the else branch is compiled
+            if not s.orelse:
+                self.err(s, 'expected an else branch', fr)
+            self.body(s.orelse, fr)
+            return
+        if isinstance(s, ast.Return) and isinstance(s.value, ast.Call):
+            f = ast.unparse(s.value.func)
+            if f == 'ForkingPickler.loads' and len(s.value.args) == 1:
+                # unpickling is not modelled: the message is returned
+                return self.do_return(s.value.args[0], fr, s)
+            if f == 'self._reader.recv_bytes' and not s.value.args:
+                r = fr.ret_reg
+                if r is None:
+                    r = fr.env.get('#ret')
+                    if r is None:
+                        r = fr.env['#ret'] = self.newreg()
+                self.emit('Recv %d' % r)
+                return self.do_return(ast.Name(id='#ret', ctx=ast.Load()), fr, s) if fr.ret_reg is None \
+                    else self.finish_return_reg(r, fr, s)
+        return Compiler.stmt(self, s, fr)
+
+    def finish_return_reg(self, r, fr, node):
+        """return the value already in register r (= fr.ret_reg)"""
+        for k in range(len(fr.cleanups) - 1, -1, -1):
+            saved = fr.cleanups
+            fr.cleanups = saved[:k]
+            saved[k]()
+            fr.cleanups = saved
+        if fr.end_label is None:
+            self.emit('Ret (RReg %d)' % r)
+        else:
+            self.emit('Jmp %s', fr.end_label)
+
+    def local_reg(self, name, fr, create=False, node=None):
+        if name == '#ret' and isinstance(fr.env.get('#ret'), int):
+            return fr.env['#ret']
+        return Compiler.local_reg(self, name, fr, create, node)
+
+    def value_into(self, e, fr, dst):
+        if isinstance(e, ast.Call) and ast.unparse(e.func) == 'ForkingPickler.loads' and len(e.args) == 1:
+            return self.value_into(e.args[0], fr, dst)
+        return Compiler.value_into(self, e, fr, dst)
+
+    def cond_jump_false(self, test, fr, target):
+        txt = ast.unparse(test)
+        if isinstance(test, ast.BoolOp) and isinstance(test.op, ast.And):
+            for v in test.values:
+                self.cond_jump_false(v, fr, target)
+            return
+        if txt == 'timeout < 0 or not self._poll(timeout)':
+            # the deadline already passed, or polling until it finds nothing: one timed poll
+            # whose `timeout` choice covers both
+            self.emit('Poll FT %d' % TMP)
+            self.emit('Jnz %d %%s' % TMP, target)
+            return
+        if txt == 'not self._poll()':
+            self.emit('Poll FF %d' % TMP)
+            self.emit('Jnz %d %%s' % TMP, target)
+            return
+        if txt == 'timeout is None' and isinstance(fr.env.get('timeout'), Flag):
+            f = fr.env['timeout'].f
+            if f == 'F':
+                return                      # constant None: the test is true
+            if f == 'T':
+                self.emit('Jmp %s', target)
+                return
+            self.emit('Jnz %d %%s' % f[1], target)
+            return
+        if isinstance(test, ast.Name) and isinstance(fr.env.get(test.id), Flag):
+            f = fr.env[test.id].f
+            if f == 'T':
+                return
+            if f == 'F':
+                self.emit('Jmp %s', target)
+                return
+            self.emit('Jz %d %%s' % f[1], target)
+            return
+        if txt == 'self._waiters':
+            self.emit('WJz %s', target)
+            return
+        return Compiler.cond_jump_false(self, test, fr, target)
+
+
+def q_rename(ins):
+    """base instruction text -> QueueProg instruction text"""
+    parts = ins.split(' ')
+    op = parts[0]
+
+    def sref(n):
+        n = int(n)
+        return '(SP %d)' % (n - PSEM) if n >= PSEM else '(SG %d)' % n
+    if op in ('Acq', 'Rel', 'IsZero', 'Count', 'AssertMine'):
+        parts[1] = sref(parts[1])
+    return 'Q' + ' '.join(parts)
+
+
+def tcond_obj():
+    return Obj('TCond', {'_lock': Obj('TLock', {'_semlock': Sem(PSEM)}), '_ns': Sem(PSEM + 1)})
+
+
+def jq_cond_obj():
+    return Obj('Condition', {'_lock': Sem(4), '_sleeping_count': Sem(5),
+                             '_woken_count': Sem(6), '_wait_semaphore': Sem(7)})
+
+
+def queue_obj(cls):
+    attrs = {'_sem': Sem(0), '_rlock': Sem(1), '_wlock': Sem(2), '_notempty': tcond_obj()}
+    if cls == 'JoinableQueue':
+        attrs['_unfinished_tasks'] = Sem(3)
+        attrs['_cond'] = jq_cond_obj()
+    return Obj(cls, attrs)
+
+
+Q_CLIENTS = [('q_put', 0), ('q_get', 1), ('jq_put', 3), ('jq_task_done', 4), ('jq_join', 5),
+             ('sq_put', 6), ('sq_get', 7)]
+Q_PARAM_OBJECTS = {
+    'q': lambda: queue_obj('Queue'), 'jq': lambda: queue_obj('JoinableQueue'),
+    'sq': lambda: Obj('SimpleQueue', {'_rlock': Sem(1), '_wlock': Sem(2)}),
+}
+
+# Queue._feed is NOT compiled (local aliases of bound methods, try/except IndexError, the
+# sentinel): its body must match this text exactly, and then the hand-written program below is
+# emitted.  Any edit of _feed breaks the obligation (fail closed).
+FEED_EXPECTED = """debug('starting thread to feed data to pipe')
+nacquire = notempty.acquire
+nrelease = notempty.release
+nwait = notempty.wait
+bpopleft = buffer.popleft
+sentinel = _sentinel
+if sys.platform != 'win32':
+    wacquire = writelock.acquire
+    wrelease = writelock.release
+else:
+    wacquire = None
+try:
+    while 1:
+        nacquire()
+        try:
+            if not buffer:
+                nwait()
+        finally:
+            nrelease()
+        try:
+            while 1:
+                obj = bpopleft()
+                if obj is sentinel:
+                    debug('feeder thread got sentinel -- exiting')
+                    close()
+                    return
+                obj = ForkingPickler.dumps(obj)
+                if wacquire is None:
+                    send_bytes(obj)
+                else:
+                    wacquire()
+                    try:
+                        send_bytes(obj)
+                    finally:
+                        wrelease()
+        except IndexError:
+            pass
+except Exception as exc:
+    if ignore_epipe and get_errno(exc) == errno.EPIPE:
+        return
+    try:
+        if is_exiting():
+            info('error in queue thread: %r', exc, exc_info=True)
+        elif not error('error in queue thread: %r', exc, exc_info=True):
+            import traceback
+            traceback.print_exc()
+    except Exception:
+        pass"""
+FEED_ARGS_EXPECTED = ("(self._buffer, self._notempty, self._send_bytes, self._wlock, "
+                      "self._writer.close, self._ignore_epipe)")
+
+
+def feed_program(srcs, fk_src):
+    """hand translation of Queue._feed (nwait() = the compiled body of TCond.wait)"""
+    comp = QCompiler(srcs)
+    comp.nreg = 3
+    top, rel, pop, wend = comp.label(), comp.label(), comp.label(), comp.label()
+    comp.place(top)
+    comp.emit('Acq %d FT FF %d' % (PSEM, TMP))        # nacquire()
+    comp.emit('BufNonEmptyJ %s', rel)                 # if not buffer:
+    wfn, _ = fk_src.method('TCond', 'wait')           #     nwait()
+    comp.body(wfn.body, Frame('TCond', wfn, {'self': tcond_obj()}, None, wend, 1))
+    comp.place(wend)
+    comp.place(rel)
+    comp.emit('Rel %d' % PSEM)                        # nrelease()
+    comp.place(pop)
+    comp.emit('BufPop 2 %s', top)                     # obj = bpopleft()  (IndexError: outer loop)
+    comp.emit('Acq 2 FT FF %d' % TMP)                 # wacquire()
+    comp.emit('Send 2')                               # send_bytes(obj)
+    comp.emit('Rel 2')                                # wrelease()
+    comp.emit('Jmp %s', pop)
+    return [q_rename(i) for i in comp.resolve()]
+
+
+def compile_q_client(name, srcs, client_src):
+    fn = client_src.funcs.get(name)
+    if fn is None:
+        raise TranslateError('client %s not found' % name)
+    comp = QCompiler(srcs)
+    env = {}
+    for a in fn.args.args:
+        if a.arg in Q_PARAM_OBJECTS:
+            env[a.arg] = Q_PARAM_OBJECTS[a.arg]()
+        elif a.arg in PARAM_FLAGS:
+            env[a.arg] = Flag(('R', PARAM_FLAGS[a.arg]))
+        elif a.arg == 'obj':
+            env[a.arg] = ('reg', 2)
+        else:
+            raise TranslateError('client %s: unknown parameter %s' % (name, a.arg))
+    comp.nreg = 3
+    fr = Frame('client', fn, env, None, None, 0)
+    comp.body(fn.body, fr)
+    if not comp.always_returns(fn.body):
+        comp.emit('Ret RNone')
+    return [q_rename(i) for i in comp.resolve()]
+
+
+def gen_P_queue(repo):
+    sync_src = Source(os.path.join(repo, 'billiard', 'synchronize.py'))
+    q_src = Source(os.path.join(repo, 'billiard', 'queues.py'))
+    fk_src = Source(os.path.join(VERIF, 'harness', 'c16_fakes.py'))
+    client_src = Source(os.path.join(VERIF, 'harness', 'c16_clients.py'))
+    check_wrappers(sync_src)
+    srcs = {'Condition': sync_src, 'Queue': q_src, 'JoinableQueue': q_src, 'SimpleQueue': q_src,
+            '_SimpleQueue': q_src, 'TCond': fk_src, 'TLock': fk_src, '': client_src}
+    # --- shape checks of what is not compiled
+    fn, _ = q_src.method('Queue', '_feed')
+    if body_text(fn) != FEED_EXPECTED:
+        raise TranslateError('Queue._feed changed: the hand-written feeder program no longer applies')
+    st, _ = q_src.method('Queue', '_start_thread')
+    starts = [n for n in ast.walk(st) if isinstance(n, ast.Call) and ast.unparse(n.func) == 'threading.Thread']
+    if len(starts) != 1:
+        raise TranslateError('Queue._start_thread no longer creates exactly one thread')
+    kw = {k.arg: ast.unparse(k.value) for k in starts[0].keywords}
+    if kw.get('target') != 'Queue._feed' or kw.get('args') != FEED_ARGS_EXPECTED:
+        raise TranslateError('Queue._start_thread passes %r to the feeder' % kw)
+    af, _ = q_src.method('Queue', '_after_fork')
+    af_text = body_text(af)
+    for need in ('self._notempty = threading.Condition(threading.Lock())', 'self._buffer = collections.deque()',
+                 'self._thread = None', 'self._send_bytes = self._writer.send_bytes',
+                 'self._recv_bytes = self._reader.recv_bytes', 'self._poll = self._reader.poll'):
+        if need not in af_text.split('\n'):
+            raise TranslateError('Queue._after_fork lost %r' % need)
+    init, _ = q_src.method('Queue', '__init__')
+    it = body_text(init)
+    for need in ('self._rlock = ctx.Lock()', 'self._sem = ctx.BoundedSemaphore(maxsize)', 'self._maxsize = maxsize'):
+        if need not in [l.strip() for l in it.split('\n')]:
+            raise TranslateError('Queue.__init__ lost %r' % need)
+    if 'self._wlock = ctx.Lock()' not in [l.strip() for l in it.split('\n')]:
+        raise TranslateError('Queue.__init__: write lock')
+    ji, _ = q_src.method('JoinableQueue', '__init__')
+    jt = [l.strip() for l in body_text(ji).split('\n')]
+    for need in ('Queue.__init__(self, maxsize, ctx=ctx)', 'self._unfinished_tasks = ctx.Semaphore(0)',
+                 'self._cond = ctx.Condition()'):
+        if need not in jt:
+            raise TranslateError('JoinableQueue.__init__ lost %r' % need)
+    si, _ = q_src.method('SimpleQueue', '__init__')
+    stx = [l.strip() for l in body_text(si).split('\n')]
+    for need in ('self._rlock = ctx.Lock()', "self._wlock = ctx.Lock() if sys.platform != 'win32' else None"):
+        if need not in stx:
+            raise TranslateError('SimpleQueue.__init__ lost %r' % need)
+    out = ['(* GENERATED on every run by translate/kernels/semprog.py from billiard/queues.py,',
+           '   billiard/synchronize.py (working tree), harness/c16_clients.py and harness/c16_fakes.py.',
+           '   p_feed is a hand translation emitted only while Queue._feed matches its expected text. *)',
+           'From Coq Require Import ZArith List Bool.',
+           'From BV Require Import Model.SemProg Model.QueueProg.',
+           'Import ListNotations.',
+           'Open Scope Z_scope.',
+           '',
+           '(* constructor parameters: _sem = BoundedSemaphore(maxsize), _rlock/_wlock = Lock(),',
+           '   _unfinished_tasks = Semaphore(0), _cond = Condition() (RLock + three Semaphore(0)) *)',
+           'Definition SEM_VALUE_MAX : Z := 2147483647.',
+           ctor_def(sync_src, 'Lock'), ctor_def(sync_src, 'RLock'),
+           ctor_def(sync_src, 'Semaphore'), ctor_def(sync_src, 'BoundedSemaphore'),
+           'Definition queue_sems (maxsize : Z) : list sem :=',
+           '  [ctor_BoundedSemaphore maxsize; ctor_Lock; ctor_Lock;',
+           '   ctor_Semaphore 0; ctor_RLock; ctor_Semaphore 0; ctor_Semaphore 0; ctor_Semaphore 0].',
+           '']
+    progs = []
+    for name, cid in Q_CLIENTS:
+        progs.append((name, cid, compile_q_client(name, srcs, client_src)))
+    progs.append(('feed', 2, feed_program(srcs, fk_src)))
+    for name, cid, prog in sorted(progs, key=lambda x: x[1]):
+        out.append('Definition p_%s : list qinstr :=' % name)
+        out.append('  [ ' + ';\n    '.join('%-30s (* %2d *)' % (ins, k) for k, ins in enumerate(prog)) + ' ].')
+        out.append('')
+    out.append('Definition code (c : nat) : list qinstr :=')
+    out.append('  match c with')
+    for name, cid, prog in sorted(progs, key=lambda x: x[1]):
+        out.append('  | %d%%nat => p_%s' % (cid, name))
+    out.append('  | _ => []')
+    out.append('  end.')
+    out.append('Definition FEED : nat := 2.')
+    return '\n'.join(out) + '\n'
+
+
 KERNELS = []
-EXTRA_GENERATORS = {'P_cond': gen_P_cond}
+EXTRA_GENERATORS = {'P_cond': gen_P_cond, 'P_queue': gen_P_queue}
